@@ -455,6 +455,136 @@ theorem deriv_masked_when_pole_sqrt (F : Fns K) (dx x r : Cell K) (h : sqrtDeriv
     · simp [hn, hz, isZero_one] at h; subst h; simp [hn, hz]
     · simp [hn, hz] at h; subst h; cases xm <;> cases dm <;> simp [hn, hz]
 
+/-! #### the remaining derivative formulas: arcsin', arccos', pow', norm', unit', quaternion reciprocal' -/
+
+theorem isOk_iff {α} (t : Trap α) : t.isOk = true ↔ ∃ a, t = ok a := by
+  cases t <;> simp [isOk]
+
+theorem no_trap_arcsinDeriv (F : Fns K) (acos : Bool) (dx x : Cell K) :
+    (arcsinDeriv F acos dx x).isOk = true := by
+  unfold arcsinDeriv
+  obtain ⟨s, hs⟩ := (isOk_iff _).1 (no_trap_sqrt F ⟨one - x.v * x.v, x.m⟩)
+  obtain ⟨f, hf⟩ := (isOk_iff _).1 (no_trap_reciprocal s)
+  simp [hs, hf]
+
+/-- arcsin'/arccos' is masked exactly where an operand is masked, |x| > 1 (1 - x² < 0) or
+    |x| = 1 (sqrt(1 - x²) = 0): the poles of 1/sqrt(1 - x²) -/
+theorem deriv_masked_when_pole_arcsin (F : Fns K) (acos : Bool) (dx x r : Cell K)
+    (h : arcsinDeriv F acos dx x = ok r) :
+    r.m = (dx.m || x.m || lt (one - x.v * x.v) zero ||
+           isZero (F.sqrt (if lt (one - x.v * x.v) zero then one else one - x.v * x.v))) := by
+  obtain ⟨xv, xm⟩ := x; obtain ⟨dv, dm⟩ := dx
+  unfold arcsinDeriv at h
+  obtain ⟨s, hs⟩ := (isOk_iff _).1 (no_trap_sqrt F ⟨one - xv * xv, xm⟩)
+  obtain ⟨f, hf⟩ := (isOk_iff _).1 (no_trap_reciprocal s)
+  obtain ⟨hsm, _⟩ := masked_iff_undefined_sqrt F _ _ hs
+  obtain ⟨hfm, _⟩ := masked_iff_undefined_reciprocal _ _ hf
+  have hsv : s.v = F.sqrt (if lt (one - xv * xv) zero then one else one - xv * xv) := by
+    unfold sqrt maskWhere psqrt at hs
+    by_cases hn : lt (one - xv * xv) zero = true
+    · simp [hn, lt_one_zero] at hs; subst hs; simp [hn]
+    · simp [hn] at hs; subst hs; simp [hn]
+  simp only [hs, hf, bind_ok, ok.injEq] at h
+  subst h
+  simp only at hsm
+  cases acos <;> simp [mul, hfm, hsm, hsv] <;> cases xm <;> cases dm <;> simp
+
+theorem no_trap_powDeriv (F : Fns K) (zeroD : Bool) (d : K) (dx x e : Cell K) (ie1 : Option IntExp) :
+    (powDeriv F zeroD d dx x e ie1).isOk = true := by
+  unfold powDeriv
+  cases zeroD
+  · obtain ⟨p, hp⟩ := (isOk_iff _).1 (no_trap_powArr F x ⟨e.v - one, e.m⟩ ie1)
+    simp [hp]
+  · obtain ⟨p, hp⟩ := (isOk_iff _).1 (no_trap_pow0D F d x ⟨e.v - one, e.m⟩ ie1)
+    simp [hp]
+
+/-- pow' is masked exactly where an operand is masked or `x ** (e - 1)` is undefined -/
+theorem deriv_masked_when_pole_pow (F : Fns K) (zeroD : Bool) (d : K) (dx x e r : Cell K)
+    (ie1 : Option IntExp) (h : powDeriv F zeroD d dx x e ie1 = ok r) :
+    r.m = (dx.m || x.m || e.m || powUndefined x.v (e.v - one) ie1) := by
+  unfold powDeriv at h
+  cases zeroD
+  · obtain ⟨p, hp⟩ := (isOk_iff _).1 (no_trap_powArr F x ⟨e.v - one, e.m⟩ ie1)
+    obtain ⟨hm, _⟩ := masked_iff_undefined_powArr F _ _ _ _ hp
+    simp only [Bool.false_eq_true, if_false, hp, bind_ok, ok.injEq] at h
+    subst h
+    simp only [mul, hm]
+    cases dx.m <;> cases x.m <;> cases e.m <;> simp
+  · obtain ⟨p, hp⟩ := (isOk_iff _).1 (no_trap_pow0D F d x ⟨e.v - one, e.m⟩ ie1)
+    obtain ⟨hm, _⟩ := masked_iff_undefined_pow0D F d _ _ _ _ hp
+    simp only [if_true, hp, bind_ok, ok.injEq] at h
+    subst h
+    simp only [mul, hm]
+    cases dx.m <;> cases x.m <;> cases e.m <;> simp
+
+theorem no_trap_normDeriv (F : Fns K) (dx x : VCell K) : (normDeriv F dx x).isOk = true := by
+  unfold normDeriv
+  obtain ⟨n, hn⟩ := (isOk_iff _).1 (no_trap_norm F x)
+  obtain ⟨f, hf⟩ := (isOk_iff _).1 (no_trap_vdivByScalar ⟨x.vals, x.m⟩ n)
+  simp [hn, hf]
+
+/-- norm' is masked exactly where the vector or its derivative is masked or the norm is zero -/
+theorem deriv_masked_when_pole_norm (F : Fns K) (dx x : VCell K) (r : Cell K)
+    (h : normDeriv F dx x = ok r) :
+    r.m = (x.m || dx.m || isZero (F.sqrt (sumSq x.vals))) := by
+  unfold normDeriv at h
+  obtain ⟨n, hn⟩ := (isOk_iff _).1 (no_trap_norm F x)
+  obtain ⟨f, hf⟩ := (isOk_iff _).1 (no_trap_vdivByScalar ⟨x.vals, x.m⟩ n)
+  have hfm := masked_iff_undefined_vdiv _ _ _ hf
+  have hnv : n = ⟨F.sqrt (sumSq x.vals), x.m⟩ := by
+    unfold norm psqrt at hn
+    simp only [sumSq_nonneg, Bool.false_eq_true, if_false, bind_ok, ok.injEq] at hn
+    exact hn.symm
+  simp only [hn, hf, bind_ok, ok.injEq] at h
+  subst h
+  simp only [hfm, hnv]
+  cases x.m <;> cases dx.m <;> simp
+
+theorem no_trap_unitDeriv (F : Fns K) (dx x : VCell K) : (unitDeriv F dx x).isOk = true := by
+  unfold unitDeriv
+  obtain ⟨n, hn⟩ := (isOk_iff _).1 (no_trap_norm F x)
+  obtain ⟨nd, hnd⟩ := (isOk_iff _).1 (no_trap_normDeriv F dx x)
+  simp only [hn, hnd, bind_ok, reciprocal_true_nonzero _ (maskWhere_zero_nonzero n), isOk_ok]
+
+/-- unit' is masked exactly where the vector or its derivative is masked or the norm is zero -/
+theorem deriv_masked_when_pole_unit (F : Fns K) (dx x r : VCell K) (h : unitDeriv F dx x = ok r) :
+    r.m = (x.m || dx.m || isZero (F.sqrt (sumSq x.vals))) := by
+  unfold unitDeriv at h
+  obtain ⟨n, hn⟩ := (isOk_iff _).1 (no_trap_norm F x)
+  obtain ⟨nd, hnd⟩ := (isOk_iff _).1 (no_trap_normDeriv F dx x)
+  have hndm := deriv_masked_when_pole_norm F dx x nd hnd
+  have hnv : n = ⟨F.sqrt (sumSq x.vals), x.m⟩ := by
+    unfold norm psqrt at hn
+    simp only [sumSq_nonneg, Bool.false_eq_true, if_false, bind_ok, ok.injEq] at hn
+    exact hn.symm
+  simp only [hn, hnd, bind_ok, reciprocal_true_nonzero _ (maskWhere_zero_nonzero n), ok.injEq] at h
+  subst h
+  subst hnv
+  simp only [mul, maskWhere, hndm]
+  by_cases hz : isZero (F.sqrt (sumSq x.vals)) = true
+  · simp [hz]
+  · cases x.m <;> cases dx.m <;> simp [hz]
+
+theorem no_trap_quatReciprocalDeriv (dx x : VCell K) : (quatReciprocalDeriv dx x).isOk = true := by
+  unfold quatReciprocalDeriv
+  have e := reciprocal_true_nonzero _ (maskWhere_zero_nonzero (⟨sumSq x.vals, x.m⟩ : Cell K))
+  dsimp only at e
+  simp only [e, bind_ok, isOk_ok]
+
+/-- Quaternion.reciprocal' is masked exactly where the quaternion or its derivative is masked
+    or the quaternion is zero -/
+theorem deriv_masked_when_pole_quatReciprocal (dx x r : VCell K) (h : quatReciprocalDeriv dx x = ok r) :
+    r.m = (x.m || dx.m || isZero (sumSq x.vals)) := by
+  unfold quatReciprocalDeriv at h
+  have e := reciprocal_true_nonzero _ (maskWhere_zero_nonzero (⟨sumSq x.vals, x.m⟩ : Cell K))
+  dsimp only at e
+  simp only [e, bind_ok, ok.injEq] at h
+  subst h
+  simp only [mul, maskWhere]
+  by_cases hz : isZero (sumSq x.vals) = true
+  · simp [hz]
+  · cases x.m <;> cases dx.m <;> simp [hz]
+
 /-! ### fast paths (check=False / nozeros=True): `ok` or the documented ValueError, never a
     warning; they raise exactly when an UNMASKED element is outside the domain — whatever is
     hidden underneath the mask, and whether or not the first attempt tripped -/
